@@ -512,8 +512,53 @@ struct Live {
     settings: DefaultSettings<f64>,
 }
 
-/// `DirectLDLKKTSolver::new`, `update_scaling(s,z,μ)`, `update` on the request's data
-fn build_live(r: &Req) -> Live {
+fn hist_of(r: &Req) -> String {
+    if r.has("hist") { r.str("hist").to_string() } else { "fresh".to_string() }
+}
+
+/// The scaling history of a request, applied to `cones` (and, when given, to the KKT
+/// solver: every intermediate scaling is also written into the KKT matrix, so that stale
+/// *matrix* entries are exercised as well as stale *cone* state).
+///   fresh       update_scaling(s,z)
+///   twice       update_scaling(s0,z0) ; [kkt.update] ; update_scaling(s,z)
+///   ident       update_scaling(s,z) ; [kkt.update] ; set_identity_scaling
+///   freshident  set_identity_scaling
+fn apply_history(
+    r: &Req, hist: &str, cones: &mut CompositeCone<f64>,
+    mut kkt: Option<(&mut DirectLDLKKTSolver<f64>, &DefaultSettings<f64>)>,
+) -> bool {
+    let strat = strategy(r.str("strategy"));
+    match hist {
+        "fresh" => cones.update_scaling(&r.fs("s"), &r.fs("z"), r.f("mu"), strat),
+        "twice" => {
+            if !cones.update_scaling(&r.fs("s0"), &r.fs("z0"), r.f("mu0"), strat) {
+                return false;
+            }
+            if let Some((k, st)) = kkt.as_mut() {
+                k.update(cones, st);
+            }
+            cones.update_scaling(&r.fs("s"), &r.fs("z"), r.f("mu"), strat)
+        }
+        "ident" => {
+            if !cones.update_scaling(&r.fs("s"), &r.fs("z"), r.f("mu"), strat) {
+                return false;
+            }
+            if let Some((k, st)) = kkt.as_mut() {
+                k.update(cones, st);
+            }
+            cones.set_identity_scaling();
+            true
+        }
+        "freshident" => {
+            cones.set_identity_scaling();
+            true
+        }
+        other => panic!("history {}", other),
+    }
+}
+
+/// `DirectLDLKKTSolver::new`, the scaling history, `update` on the request's data
+fn build_live_hist(r: &Req, hist: &str) -> Live {
     let P = r.csc("P");
     let A = r.csc("A");
     let mut cones = CompositeCone::<f64>::new(&parse_cones(r.str("cones")));
@@ -523,10 +568,12 @@ fn build_live(r: &Req) -> Live {
     settings.static_regularization_constant = r.f("regconst");
     settings.static_regularization_proportional = r.f("regprop");
     let mut kkt = DirectLDLKKTSolver::<f64>::new(&P, &A, &cones, A.m, A.n, &settings);
-    let (s, z) = (r.fs("s"), r.fs("z"));
-    let scaling_ok = cones.update_scaling(&s, &z, r.f("mu"), strategy(r.str("strategy")));
+    let scaling_ok = apply_history(r, hist, &mut cones, Some((&mut kkt, &settings)));
     let update_ok = if scaling_ok { kkt.update(&cones, &settings) } else { false };
     Live { cones, kkt, scaling_ok, update_ok, settings }
+}
+fn build_live(r: &Req) -> Live {
+    build_live_hist(r, &hist_of(r))
 }
 
 fn run_update(r: &Req) -> String {
@@ -579,16 +626,20 @@ fn dense_sym_from_triu(K: &CscMatrix<f64>, vals: &[f64]) -> Vec<Vec<f64>> {
 fn check_values(view: &KktView<f64>, P: &CscMatrix<f64>, A: &CscMatrix<f64>, cones: &CompositeCone<f64>) -> Result<(), String> {
     let K = &view.KKT;
     let mut want: Vec<Option<f64>> = vec![None; K.nnz()];
+    let mut owner: Vec<String> = vec!["filled-diagonal".to_string(); K.nnz()];
     for (k, &i) in view.map.P.iter().enumerate() {
         want[i] = Some(P.nzval[k]);
+        owner[i] = format!("P[{}]", k);
     }
     for (k, &i) in view.map.A.iter().enumerate() {
         want[i] = Some(A.nzval[k]);
+        owner[i] = format!("A[{}]", k);
     }
     let mut Hs = vec![0.0; view.map.Hsblocks.len()];
     cones.get_Hs(&mut Hs);
     for (k, &i) in view.map.Hsblocks.iter().enumerate() {
         want[i] = Some(-Hs[k]);
+        owner[i] = format!("Hsblocks[{}]", k);
     }
     let mut si = 0;
     for c in cones.iter() {
@@ -629,8 +680,8 @@ fn check_values(view: &KktView<f64>, P: &CscMatrix<f64>, A: &CscMatrix<f64>, con
         let same = w.to_bits() == got.to_bits() || (w == 0.0 && got == 0.0) || (w.is_nan() && got.is_nan());
         if !same {
             return Err(format!(
-                "KKT.nzval[{}] = {:e} but the data/scaling determine {:e} (difference {:e}; static regulariser {:e})",
-                k, got, w, got - w, view.diagonal_regularizer
+                "KKT.nzval[{}] ({}) = {:e} but the data/scaling determine {:e} (difference {:e}; static regulariser {:e})",
+                k, owner[k], got, w, got - w, view.diagonal_regularizer
             ));
         }
     }
@@ -747,6 +798,54 @@ fn oracle_update(r: &Req, out: &str) -> Result<(), String> {
     let view = live.kkt.verif_view();
     let (P, A) = (r.csc("P"), r.csc("A"));
     check_values(&view, &P, &A, &live.cones)?;
+    // history independence: only the LAST scaling operation may determine the cone data and
+    // the KKT values (nothing left over from an earlier scaling / update)
+    let hist = hist_of(r);
+    let last_only = match hist.as_str() {
+        "twice" => Some("fresh"),
+        "ident" => Some("freshident"),
+        _ => None,
+    };
+    if let Some(h2) = last_only {
+        let fresh = build_live_hist(r, h2);
+        let a = scaling_tokens(Line::new("x"), &live.cones).done();
+        let b = scaling_tokens(Line::new("x"), &fresh.cones).done();
+        if a != b {
+            let (ra, rb) = (Req::parse(&a).unwrap(), Req::parse(&b).unwrap());
+            let key = ra.kv.iter().find(|(k, v)| rb.kv.get(*k) != Some(v)).map(|(k, _)| k.clone()).unwrap_or_default();
+            return Err(format!(
+                "cone scaling data after history '{}' differs from a fresh cone given only the last operation (key {}): state of an earlier scaling leaks",
+                hist, key
+            ));
+        }
+        let fv = fresh.kkt.verif_view();
+        for k in 0..view.KKT.nnz() {
+            let (x, y) = (view.KKT.nzval[k], fv.KKT.nzval[k]);
+            if x.to_bits() != y.to_bits() && !(x.is_nan() && y.is_nan()) {
+                return Err(format!(
+                    "KKT.nzval[{}] = {:e} after history '{}' but {:e} on a fresh solver given only the last scaling",
+                    k, x, hist, y
+                ));
+            }
+        }
+    }
+    // identity scaling must give H = I on second-order / nonnegative cones (0 on zero cones)
+    if hist.ends_with("ident") {
+        let H = dense_mul_hs(&mut live.cones);
+        let spec = parse_cs(r.str("cones"));
+        let mut row = 0;
+        for c in &spec {
+            for i in 0..c.numel() {
+                for j in 0..H.len() {
+                    let want = if row + i == j && !matches!(c, CS::Zero(_)) { 1.0 } else { 0.0 };
+                    if H[row + i][j] != want {
+                        return Err(format!("identity scaling: mul_Hs({},{}) = {:e}, expected {}", row + i, j, H[row + i][j], want));
+                    }
+                }
+            }
+            row += c.numel();
+        }
+    }
     // assembled structure of the live solver = the assembly oracle
     let asm_line = line_map(Line::out().csc("", &view.KKT), &view.map).is("dsigns", &view.dsigns).done();
     let mut asm = parse_asm(&asm_line)?;
@@ -797,8 +896,7 @@ fn oracle_update(r: &Req, out: &str) -> Result<(), String> {
 
 fn run_get_hs(r: &Req) -> String {
     let mut cones = CompositeCone::<f64>::new(&parse_cones(r.str("cones")));
-    let (s, z) = (r.fs("s"), r.fs("z"));
-    if !cones.update_scaling(&s, &z, r.f("mu"), strategy(r.str("strategy"))) {
+    if !apply_history(r, &hist_of(r), &mut cones, None) {
         return "scaling-failed".into();
     }
     let again = scaling_tokens(Line::new("x"), &cones).done();
@@ -823,8 +921,7 @@ fn oracle_get_hs(r: &Req, out: &str) -> Result<(), String> {
     let Hs = o.fs("Hs");
     let spec = parse_cs(r.str("cones"));
     let mut cones = CompositeCone::<f64>::new(&parse_cones(r.str("cones")));
-    let (s, z) = (r.fs("s"), r.fs("z"));
-    cones.update_scaling(&s, &z, r.f("mu"), strategy(r.str("strategy")));
+    apply_history(r, &hist_of(r), &mut cones, None);
     let H = dense_mul_hs(&mut cones);
     let (rc, rb) = hk::cone_ranges(&cones);
     for (ci, c) in spec.iter().enumerate() {
@@ -1021,14 +1118,51 @@ fn oracle_blk(r: &Req, out: &str) -> Result<(), String> {
 
 // ------------------------------------------------------------------ kkt.live
 
-/// A full solve; afterwards the solver's own KKT matrix must be exactly what the data and
-/// the final scaling determine (no regularisation left), and the LDL engine's copy must be
-/// that matrix with `±ε` on the diagonal.
-fn run_live(r: &Req) -> String {
-    let P = r.csc("P");
-    let A = r.csc("A");
-    let (q, b) = (r.fs("q"), r.fs("b"));
-    let cones = parse_cones(r.str("cones"));
+/// State of the KKT solver behind a live `DefaultSolver`: the solver's own KKT matrix must
+/// be exactly what the data and the cones' current scaling determine (no regularisation
+/// left, nothing stale), the LDL engine's copy must be that matrix with `±ε` on the
+/// diagonal, the structure must be the intended one, and eliminating the expansion
+/// variables must give `-H` with `H` what `mul_Hs` applies.
+fn check_live_state(solver: &mut DefaultSolver<f64>, r: &Req, stage: &str, check_ldl: bool) -> Result<(), String> {
+    let view = solver.kktsystem.verif_kkt_view().ok_or("no-view")?;
+    let tag = format!("stage={} status={:?} iters={} nnz={}", stage, solver.solution.status, solver.solution.iterations, view.KKT.nnz());
+    let fail = |e: String| format!("{} :: {}", tag, e);
+    check_values(&view, &solver.data.P, &solver.data.A, &solver.cones).map_err(&fail)?;
+    if let (true, Some(l), Some(a)) = (check_ldl, &view.ldl_nzval, &view.AtoPAPt) {
+        let eps = view.diagonal_regularizer;
+        let mut is_diag = vec![false; view.KKT.nnz()];
+        for (j, &i) in view.map.diag_full.iter().enumerate() {
+            is_diag[i] = true;
+            let d = view.KKT.nzval[i];
+            let w = if !r.b("reg") { d } else if view.dsigns[j] == 1 { d + eps } else { d - eps };
+            if l[a[i]].to_bits() != w.to_bits() && !(w.is_nan() && l[a[i]].is_nan()) {
+                return Err(fail(format!("LDL copy of diagonal {} is {:e} expected {:e}", j, l[a[i]], w)));
+            }
+        }
+        for k in 0..view.KKT.nnz() {
+            if !is_diag[k] && l[a[k]].to_bits() != view.KKT.nzval[k].to_bits() && !(l[a[k]].is_nan() && view.KKT.nzval[k].is_nan()) {
+                return Err(fail(format!("LDL copy of entry {} differs", k)));
+            }
+        }
+    }
+    let asm_line = line_map(Line::out().csc("", &view.KKT), &view.map).is("dsigns", &view.dsigns).done();
+    parse_asm(&asm_line)
+        .and_then(|mut asm| {
+            for k in 0..asm.K.nnz() {
+                asm.K.nzval[k] = 0.0;
+            }
+            for (k, &i) in view.map.P.iter().enumerate() { asm.K.nzval[i] = solver.data.P.nzval[k]; }
+            for (k, &i) in view.map.A.iter().enumerate() { asm.K.nzval[i] = solver.data.A.nzval[k]; }
+            check_assembly(&solver.data.P, &solver.data.A, &parse_cs(r.str("cones")), true, &asm)
+        })
+        .map_err(&fail)?;
+    if view.KKT.nzval.iter().all(|x| x.is_finite()) {
+        check_schur(&view, &mut solver.cones).map_err(&fail)?;
+    }
+    Ok(())
+}
+
+fn live_settings(r: &Req) -> DefaultSettings<f64> {
     let mut settings = DefaultSettings::<f64>::default();
     settings.verbose = false;
     settings.direct_solve_method = r.str("method").to_string();
@@ -1037,53 +1171,92 @@ fn run_live(r: &Req) -> String {
     settings.presolve_enable = false;
     settings.static_regularization_enable = r.b("reg");
     settings.iterative_refinement_enable = r.b("ir");
-    let mut solver = DefaultSolver::<f64>::new(&P, &q, &A, &b, &cones, settings);
+    settings
+}
+
+/// Solves, re-solves on the same object (optionally after a data update) and inspects the
+/// KKT state after every solve and right after `default_start` of the re-solve (a re-solve
+/// with `max_iter = 0` stops exactly there).
+fn run_live(r: &Req) -> String {
+    let P = r.csc("P");
+    let A = r.csc("A");
+    let (q, b) = (r.fs("q"), r.fs("b"));
+    let cones = parse_cones(r.str("cones"));
+    let resolve = if r.has("resolve") { r.str("resolve").to_string() } else { "none".to_string() };
+    let mut solver = DefaultSolver::<f64>::new(&P, &q, &A, &b, &cones, live_settings(r));
     solver.solve();
-    let view = match solver.kktsystem.verif_kkt_view() {
-        Some(v) => v,
-        None => return "FAIL no-view".into(),
-    };
-    let status = format!("{:?}", solver.solution.status);
-    let tag = format!("status={} iters={} nnz={}", status, solver.solution.iterations, view.KKT.nnz());
+    let symmetric = solver.cones.is_symmetric();
+    let mut stages = vec![];
     // nonsymmetric start: no KKT update has happened before the first pass of the loop, the
     // Hs / expansion entries still hold their structural zeros
-    if solver.solution.iterations == 0 && !solver.cones.is_symmetric() {
-        return format!("ok never-updated {}", tag);
+    let never_updated = solver.solution.iterations == 0 && !symmetric;
+    if never_updated {
+        stages.push("first:never-updated".to_string());
+    } else {
+        if let Err(e) = check_live_state(&mut solver, r, "first", true) {
+            return format!("FAIL {}", e).replace(' ', "_");
+        }
+        stages.push(format!("first:{:?}:{}", solver.solution.status, solver.solution.iterations));
     }
-    if let Err(e) = check_values(&view, &solver.data.P, &solver.data.A, &solver.cones) {
-        return format!("FAIL {} :: {}", tag, e).replace(' ', "_");
+    if resolve == "none" {
+        return format!("ok {}", stages.join(","));
     }
-    if let (Some(l), Some(a)) = (&view.ldl_nzval, &view.AtoPAPt) {
-        let eps = view.diagonal_regularizer;
-        let mut is_diag = vec![false; view.KKT.nnz()];
-        for (j, &i) in view.map.diag_full.iter().enumerate() {
-            is_diag[i] = true;
-            let d = view.KKT.nzval[i];
-            let w = if !r.b("reg") { d } else if view.dsigns[j] == 1 { d + eps } else { d - eps };
-            if l[a[i]].to_bits() != w.to_bits() && !(w.is_nan() && l[a[i]].is_nan()) {
-                return format!("FAIL {} :: LDL copy of diagonal {} is {:e} expected {:e}", tag, j, l[a[i]], w).replace(' ', "_");
+    // data of the re-solve
+    let (mut P2, mut A2, mut q2, mut b2) = (P.clone(), A.clone(), q.clone(), b.clone());
+    if resolve == "update" {
+        let (fp, fa) = (r.f("fp"), r.fs("fa"));
+        P2.nzval.iter_mut().for_each(|x| *x *= fp);
+        A2.nzval.iter_mut().zip(fa.iter().cycle()).for_each(|(x, f)| *x *= *f);
+        q2.iter_mut().for_each(|x| *x *= fp);
+        b2.iter_mut().zip(fa.iter().cycle()).for_each(|(x, f)| *x += 0.25 * *f);
+        if solver.update_P(&P2.nzval).is_err() || solver.update_A(&A2.nzval).is_err()
+            || solver.update_q(&q2).is_err() || solver.update_b(&b2).is_err()
+        {
+            return "FAIL data-update-rejected".into();
+        }
+    }
+    // re-solve stopped right after default_start
+    solver.settings.max_iter = 0;
+    solver.solve();
+    if !(never_updated && !symmetric) {
+        // `update_P` writes the raw P diagonal into the LDL engine's copy; `±ε` is re-applied
+        // by the next `regularize_and_refactor`, which a nonsymmetric `default_start` does not run
+        let refactored = symmetric || resolve != "update";
+        if let Err(e) = check_live_state(&mut solver, r, "restart", refactored) {
+            return format!("FAIL {}", e).replace(' ', "_");
+        }
+    }
+    stages.push("restart".to_string());
+    // the restarted state is the state of a fresh solver on the same data (internal data is
+    // the same only without equilibration once the data was updated in place)
+    if symmetric && (resolve == "again" || !r.b("equil")) {
+        let mut st = live_settings(r);
+        st.max_iter = 0;
+        let mut fresh = DefaultSolver::<f64>::new(&P2, &q2, &A2, &b2, &cones, st);
+        fresh.solve();
+        let (v1, v2) = (solver.kktsystem.verif_kkt_view().unwrap(), fresh.kktsystem.verif_kkt_view().unwrap());
+        for k in 0..v1.KKT.nnz() {
+            let (x, y) = (v1.KKT.nzval[k], v2.KKT.nzval[k]);
+            if x.to_bits() != y.to_bits() && !(x.is_nan() && y.is_nan()) {
+                return format!(
+                    "FAIL stage=restart :: KKT.nzval[{}] = {:e} on the re-solved solver but {:e} on a fresh solver at the same point (state of the previous solve leaks)",
+                    k, x, y
+                )
+                .replace(' ', "_");
             }
         }
-        for k in 0..view.KKT.nnz() {
-            if !is_diag[k] && l[a[k]].to_bits() != view.KKT.nzval[k].to_bits() && !(l[a[k]].is_nan() && view.KKT.nzval[k].is_nan()) {
-                return format!("FAIL {} :: LDL copy of entry {} differs", tag, k).replace(' ', "_");
-            }
+        stages.push("restart=fresh".to_string());
+    }
+    // full re-solve
+    solver.settings.max_iter = (r.u("maxiter") as u32).max(3);
+    solver.solve();
+    if !(solver.solution.iterations == 0 && !symmetric && never_updated) {
+        if let Err(e) = check_live_state(&mut solver, r, "second", true) {
+            return format!("FAIL {}", e).replace(' ', "_");
         }
     }
-    // structure of the live matrix
-    let asm_line = line_map(Line::out().csc("", &view.KKT), &view.map).is("dsigns", &view.dsigns).done();
-    let res = parse_asm(&asm_line).and_then(|mut asm| {
-        for k in 0..asm.K.nnz() {
-            asm.K.nzval[k] = 0.0;
-        }
-        for (k, &i) in view.map.P.iter().enumerate() { asm.K.nzval[i] = solver.data.P.nzval[k]; }
-        for (k, &i) in view.map.A.iter().enumerate() { asm.K.nzval[i] = solver.data.A.nzval[k]; }
-        check_assembly(&solver.data.P, &solver.data.A, &parse_cs(r.str("cones")), true, &asm)
-    });
-    if let Err(e) = res {
-        return format!("FAIL {} :: {}", tag, e).replace(' ', "_");
-    }
-    format!("ok {}", tag)
+    stages.push(format!("second:{:?}:{}", solver.solution.status, solver.solution.iterations));
+    format!("ok {}", stages.join(","))
 }
 fn oracle_live(_r: &Req, out: &str) -> Result<(), String> {
     if out.starts_with("ok ") { Ok(()) } else { Err(out.to_string()) }
@@ -1404,11 +1577,26 @@ fn update_case(s: &mut Session, spec: &[CS], chan: &str) {
     let A = gen::csc(&mut s.rng, m, n, adens, if wild { Vals::LogMag(-3.0, 3.0) } else { Vals::SmallIntNZ(3) });
     let mut cones = CompositeCone::<f64>::new(&parse_cones(&fmt_cs(spec)));
     let (sv, zv) = interior_point(&mut s.rng, spec, &cones, wild);
+    let (s0, z0) = interior_point(&mut s.rng, spec, &cones, wild);
     let mu = if wild { 10f64.powf(s.rng.uniform(-8.0, 2.0)) } else { s.rng.uniform(0.1, 2.0) };
+    let mu0 = s.rng.uniform(0.1, 2.0);
     let strat = if s.rng.bool(0.5) { "dual" } else { "pd" };
-    if !cones.update_scaling(&sv, &zv, mu, strategy(strat)) {
-        s.count("update:scaling-failed-at-generation");
-        return;
+    // scaling history: the model can compute identity scaling for zero / nonneg / SOC lists
+    let simple = spec.iter().all(|c| matches!(c, CS::Zero(_) | CS::NN(_) | CS::Soc(_)));
+    let hist = if simple {
+        *s.rng.choose(&["fresh", "fresh", "twice", "twice", "ident", "ident", "ident", "freshident"])
+    } else {
+        *s.rng.choose(&["fresh", "fresh", "twice"])
+    };
+    {
+        let pre = Req::parse(
+            &Line::new("x").fs("s", &sv).fs("z", &zv).f("mu", mu).fs("s0", &s0).fs("z0", &z0).f("mu0", mu0).s("strategy", strat).done(),
+        )
+        .unwrap();
+        if !apply_history(&pre, hist, &mut cones, None) {
+            s.count("update:scaling-failed-at-generation");
+            return;
+        }
     }
     // the inertia oracle factorises without dynamic regularisation: it needs a regulariser
     // well above the rounding level of the elimination (a true quasidefinite matrix with
@@ -1430,6 +1618,10 @@ fn update_case(s: &mut Session, spec: &[CS], chan: &str) {
         .fs("s", &sv)
         .fs("z", &zv)
         .f("mu", mu)
+        .fs("s0", &s0)
+        .fs("z0", &z0)
+        .f("mu0", mu0)
+        .s("hist", hist)
         .s("strategy", strat)
         .b("reg", reg)
         .f("regconst", rc)
@@ -1438,6 +1630,7 @@ fn update_case(s: &mut Session, spec: &[CS], chan: &str) {
     l = scaling_tokens(l, &cones);
     s.submit(l.done());
     s.count(&format!("{}:{}", chan, if psd { "psd" } else if wild { "wild" } else { "indef" }));
+    s.count(&format!("{}:hist={}", chan, hist));
 }
 
 fn gen_update(s: &mut Session) {
@@ -1547,9 +1740,27 @@ fn gen_blk(s: &mut Session) {
 fn gen_live(s: &mut Session) {
     let mut lists = cone_lists();
     lists.extend(big_cone_lists());
-    let total = s.budget(200, 3000);
-    for it in 0..total {
-        let spec: Vec<CS> = if it < lists.len() { lists[it].clone() } else { random_cone_list(&mut s.rng.clone(), false) };
+    // symmetric lists with a sparse-expanded second-order cone, always re-solved: the only
+    // family where `default_start` of a re-solve writes an identity scaling over the
+    // expansion entries left by the previous solve
+    let resolved: Vec<Vec<CS>> = vec![
+        vec![CS::Soc(5)],
+        vec![CS::Soc(6), CS::NN(2)],
+        vec![CS::Soc(5), CS::Soc(7)],
+        vec![CS::Zero(1), CS::Soc(8), CS::Soc(3)],
+    ];
+    let nres = resolved.len() * s.budget(6, 60);
+    let total = nres + s.budget(200, 3000);
+    for it0 in 0..total {
+        let forced = it0 < nres;
+        let it = it0.wrapping_sub(nres);
+        let spec: Vec<CS> = if forced {
+            resolved[it0 % resolved.len()].clone()
+        } else if it < lists.len() {
+            lists[it].clone()
+        } else {
+            random_cone_list(&mut s.rng.clone(), false)
+        };
         s.rng.next_u64();
         // PSD cones in a full solve need LAPACK; structure is covered by kkt.assemble/update
         if spec.iter().any(|c| matches!(c, CS::Psd(_))) {
@@ -1573,10 +1784,17 @@ fn gen_live(s: &mut Session) {
         let q = gen::vec_of(&mut s.rng, n, Vals::SmallInt(2));
         let method = if s.rng.bool(0.75) { "qdldl" } else { *s.rng.choose(&["auto", "faer"]) };
         let symmetric = spec.iter().all(|c| matches!(c, CS::Zero(_) | CS::NN(_) | CS::Soc(_)));
-        let maxiter = if symmetric { *s.rng.choose(&[0usize, 1, 3, 50]) } else { *s.rng.choose(&[1usize, 2, 50]) };
+        let maxiter = if forced { *s.rng.choose(&[2usize, 5, 50]) } else if symmetric { *s.rng.choose(&[0usize, 1, 3, 50]) } else { *s.rng.choose(&[1usize, 2, 50]) };
         let (equil, reg, ir) = (s.rng.bool(0.7), s.rng.bool(0.85), s.rng.bool(0.8));
+        let resolve = if forced { *s.rng.choose(&["again", "again", "update"]) } else { *s.rng.choose(&["none", "again", "again", "update"]) };
+        let fp = s.rng.uniform(0.5, 2.0);
+        let fa: Vec<f64> = (0..5).map(|_| s.rng.uniform(0.5, 1.5)).collect();
+        s.count(&format!("live:resolve={}:{}", resolve, if symmetric { "symmetric" } else { "nonsymmetric" }));
         s.submit(
             Line::new("kkt.live")
+                .s("resolve", resolve)
+                .f("fp", fp)
+                .fs("fa", &fa)
                 .csc("P", &P)
                 .csc("A", &A)
                 .fs("q", &q)
@@ -1593,10 +1811,10 @@ fn gen_live(s: &mut Session) {
 }
 
 fn generate(s: &mut Session) {
+    gen_live(s);
     gen_assemble(s);
     gen_blk(s);
     gen_update(s);
-    gen_live(s);
 }
 
 fn main() {
